@@ -1125,6 +1125,28 @@ fn run_body(c: &RtCase, lines: &mut Vec<String>, flags: &mut RtFlags) {
                     }
                 }
             }
+            // Oracle of C15: every later run once more, on a freshly built graph (`f<j>.` lines;
+            // implementation against implementation, the model does not print them).
+            for (j, r) in runs.iter().enumerate().skip(1) {
+                let Some(mut fresh) = build_graph(&c.ops) else {
+                    continue;
+                };
+                let prefix = format!("f{j}.");
+                let mut fl = RtFlags::default();
+                match r {
+                    Run::Call(cfg, evs) => {
+                        let gref = if cfg.mutable {
+                            GRef::Mut(&mut fresh)
+                        } else {
+                            GRef::Shared(&fresh)
+                        };
+                        run_call_events(id, &prefix, gref, cfg, evs, lines, &mut fl);
+                    }
+                    Run::Stream(cfg, evs) => {
+                        run_stream_events(id, &prefix, &fresh, cfg, evs, lines, &mut fl)
+                    }
+                }
+            }
         }
         Body::Y(a, b, evs) => {
             let mut ra = CallRun::new(GRef::Shared(&g), a);
@@ -1143,6 +1165,25 @@ fn run_body(c: &RtCase, lines: &mut Vec<String>, flags: &mut RtFlags) {
             }
             finish_call(id, "A.", &mut ra, lines, flags);
             finish_call(id, "B.", &mut rb, lines, flags);
+            drop(ra);
+            drop(rb);
+            // Oracle of C20: each run alone, on its own freshly built graph, with its own events
+            // (`fA.` / `fB.` lines; the model does not print them).
+            for (which, cfg, pre) in [(false, a, "fA."), (true, b, "fB.")] {
+                let Some(fresh) = build_graph(&c.ops) else {
+                    continue;
+                };
+                let mut fl = RtFlags::default();
+                let mut run = CallRun::new(GRef::Shared(&fresh), cfg);
+                for (is_b, ev) in evs {
+                    if *is_b != which || run.ended() {
+                        continue;
+                    }
+                    let body = run.apply(ev);
+                    lines.push(format!("OBS {id} {pre}{body}"));
+                }
+                finish_call(id, pre, &mut run, lines, &mut fl);
+            }
         }
     }
 }
